@@ -87,7 +87,7 @@ def eq_sig(st, real_eq):
 def run(ctx):
     quick = ctx.tier == 'quick'
     cat, cls = objs.catalogue(), objs.classes()
-    invs = c17.INVS + ['EqReflexiveSymmetric']
+    invs = c17.INVS + ['EqReflexiveSymmetric', 'CopyWithDictDiffers']
     res = tlc.run('MC_Objects', cfg_text=c17.cfg('ClsEqSmall' if quick else 'ClsEq', 'ActsEq', 2, 3, invs=invs, extra='TolProbes'), dump=True,
                   tag='c16', timeout=3000)
     ctx.tlc(res, 'MC_Objects two slots: construct/copy/copywith/assign/meta, eq flag')
@@ -104,7 +104,7 @@ def run(ctx):
     else:
         n = 0
         for st in parse_dump(res.dump_path, only='"copy'):
-            if st['act']['a'] not in ('copy', 'copyas'):
+            if st['act']['a'] not in ('copy', 'copyas', 'copywithdict'):
                 continue
             n += 1
             w = objs.World(cat, cls)
@@ -115,7 +115,7 @@ def run(ctx):
             ctx.case((st['act']['a'], json.dumps(st['pre']['heap'], sort_keys=True)), True)
             real_eq = w.equality()
             if out != 'ok' or heap != mh or dicts != md or real_eq != st['eq']:
-                what = 'copy()' if st['act']['a'] == 'copy' else f"a {st['act']['cls']} with the same parameter values"
+                what = 'copy()' if st['act']['a'] == 'copy' else (f"copy({st['act']['which']}={st['act']['value']})" if st['act']['a'] == 'copywithdict' else f"a {st['act']['cls']} with the same parameter values")
                 ctx.violation(f"C16|{st['act']['a']}|{st['pre']['heap'][0]['cls']}|{real_eq.split(' ')[0]}",
                               f"{what} of {st['pre']['heap'][0]['cls']}: outcome {out}, == says {real_eq}, model says {st['eq']}",
                               {'pre': st['pre'], 'act': st['act'], 'real_post': {'heap': heap, 'dicts': dicts}, 'model_post': {'heap': mh, 'dicts': md}})
